@@ -42,6 +42,9 @@ CON = {
     "Self::remap_witness": lambda it, recv, a: (ev(it, "remap_witness", canon(a[2])), VOpaque("remapped", [a[2]]))[1],
     "composer.append_custom_gate": lambda it, recv, a: (ev(it, "append_custom_gate", a[0]), UNIT)[1],
     "Composer::uninitialized": lambda it, recv, a: Sym("composer"),
+    # naming convention of a pre-sizing constructor (none exists in the pinned tree): an uninitialized composer with memory RESERVED in
+    # proportion to every argument - the reservation sizes are part of the decoder's observable behaviour (C15 / C17: bounded by the capacity)
+    "Composer::with_capacity": lambda it, recv, a: ([it.ctx.exits.append(("alloc", canon(x))) for x in a if not isinstance(x, int)], Sym("composer"))[1],
     ".copied": lambda it, recv, a: recv,
     # the decoding prefix: each step under its own contract elsewhere (Verus units compress.py: packed_size_limit, reader) or assumed
     "Self::packed_size_limit": lambda it, recv, a: ("fallible", "packed_size_limit overflows => Err(InvalidCompressedCircuit)", VOpaque("packed_size_limit", list(a))),
@@ -104,10 +107,42 @@ def c_from_bytes(it, recv, a):
     return VOk(Sym("composer"))
 
 
+def _bounded_alloc(e):
+    """a reservation whose size was VALIDATED against the capacity before (the row / selector / scalar counts pass unpack_bounded's checks
+    against max_constraints) is within the property's bound and is not part of the compared behaviour; any other reservation is"""
+    if not (isinstance(e, tuple) and e and e[0] == "alloc"):
+        return False
+    import re as _re
+    return bool(_re.fullmatch(r"len\(circuit\(.*\)\.(constraints|polynomials|scalars|public_inputs)\)", str(e[1])))
+
+
+def _dedupe_remaps(key, v):
+    """`remap_witness(label)` is idempotent (the second call for a label is a map hit without any effect): once the path's label equalities
+    are applied, repeated remaps of one label inside a row are the same trace as a single one"""
+    def go(x):
+        if isinstance(x, tuple):
+            out, seen = [], set()
+            for y in x:
+                y = go(y)
+                if isinstance(y, tuple) and len(y) == 2 and y[0] == "remap_witness":
+                    if y[1] in seen:
+                        continue
+                    seen.add(y[1])
+                out.append(y)
+            return tuple(out)
+        if isinstance(x, list):
+            return [go(y) for y in x]
+        return x
+    return go(v) if key == "composer_ops" else v
+
+
 u = Unit("compress.from_bytes.row_replay", CP, "CompressedCircuit::from_bytes", [("compressed", sym("compressed")), ("max_constraints", sym("max_constraints"))],
-         c_from_bytes, lambda res, args, ctx: {"composer_ops": list(ctx.log), "exits": list(ctx.exits), "result": res},
+         c_from_bytes, lambda res, args, ctx: {"composer_ops": list(ctx.log), "exits": [e for e in ctx.exits if not _bounded_alloc(e)], "result": res},
          trace_only=True, tracked=("composer",), path_dependent=True)
 u.extra_contracts = CON
+u.post_norm = _dedupe_remaps
+u.helper_files = ["src/composer.rs"]
+u.track_allocs = True
 UNITS.append(u)
 
 
